@@ -609,7 +609,7 @@ def relations(f, pos, render=None):
     return out
 
 
-def walk_vals(f, start_block, val, limit=400, stop_at_loop_back=False, assume=None, stop_at=None, seq=None):
+def walk_vals(f, start_block, val, limit=400, stop_at_loop_back=False, assume=None, stop_at=None, seq=None, trace=None):
     """like walk(), but every assignment / compound assignment / initialisation of a local whose value is determined is recorded, and
     the final valuation is returned as third result.  `assume(key)` may supply a value for an undetermined branch condition."""
     val = dict(val)
@@ -632,6 +632,8 @@ def walk_vals(f, start_block, val, limit=400, stop_at_loop_back=False, assume=No
                 return seen_all, "stop", val
             seen_all.append(e)
             ne = f.nodes[e]
+            if trace is not None:
+                trace(e, val)       # the valuation before this element takes effect
             if seq and ne["k"] in ("CallExpr", "CXXMemberCallExpr"):
                 # successive evaluations of one call site yield the successive outcomes of `seq[key]` (the last one repeats)
                 ks_ = key(f, e)
